@@ -47,8 +47,29 @@ def run(chk):
     discr = {v["name"]: v["discr"] for v in adt["variants"]}
     # ------------------------------------------------------------------ R-OPT-ARM
     eb = ExprBuilder(ob)
-    attr_l = [l for l in range(len(ob.locals)) if ob.lname(l) == "attribute"]
-    ch_l = [l for l in range(len(ob.locals)) if ob.lname(l) == "ch"]
+    # the rewritten cell: the (ch, attribute) locals of the AttributedChar aggregate handed to Layer::set_char
+    attr_l, ch_l = [], []
+    for bi, t in ob.calls():
+        if not (t["callee"].get("resolved") or "").endswith("Layer::set_char") or len(t["args"]) < 3:
+            continue
+        pj = t["args"][2].get("copy") or t["args"][2].get("move")
+        if pj is None or pj.get("p"):
+            continue
+        for bj, kj in ob.defs.get(pj["l"], []):
+            if kj == "term":
+                continue
+            rv = ob.blocks[bj]["stmts"][kj]["rv"]
+            if rv["k"] == "agg" and (rv.get("adt") or "").endswith("AttributedChar"):
+                for o in rv["ops"]:
+                    e = eb.operand(o)
+                    while e[0] in ("ref", "deref"):
+                        e = e[1]
+                    if e[0] == "var" and isinstance(e[1], int):
+                        ty = ob.tys(e[1])
+                        if ty == "char" and e[1] not in ch_l:
+                            ch_l.append(e[1])
+                        elif ty.endswith("TextAttribute") and e[1] not in attr_l:
+                            attr_l.append(e[1])
     sw = None
     for bi in range(ob.nblocks):
         t = ob.blocks[bi]["term"]
@@ -74,7 +95,7 @@ def run(chk):
             if s["p"]["l"] == al:
                 nw += 1
                 v = show(eb.rvalue(s["rv"]))
-                ok = v.endswith("attr_ch.attribute") or v.endswith(".attribute") and "get_char" in v
+                ok = v.endswith(".attribute")          # a copy of the `attribute` field of the cell just read
                 chk.obligation(ok)
                 if not ok:
                     chk.finding("optimize|attribute-assigned|%s" % v[:50], rule="R-OPT-ARM", where="%s:%s" % (ob.file, s["line"]), fn="ColorOptimizer::optimize",
@@ -87,7 +108,7 @@ def run(chk):
                     ok = in_arm(bi, "Whitespace")
                 else:
                     txt = show(v)
-                    ok = txt.endswith("attr_ch.ch") or txt.endswith(".ch")
+                    ok = txt.endswith(".ch")
                 chk.obligation(ok)
                 if not ok:
                     chk.finding("optimize|ch-assigned|%s" % show(v)[:40], rule="R-OPT-ARM", where="%s:%s" % (ob.file, s["line"]), fn="ColorOptimizer::optimize",
@@ -96,7 +117,7 @@ def run(chk):
         for bi, t in ob.calls():
             for i, a in enumerate(t["args"]):
                 e = eb.operand(a)
-                if e[0] == "ref" and strip(e) == ("var", al, "attribute") and f.types[eb_type(ob, a, f)]["s"].startswith("&mut") if eb_type(ob, a, f) is not None else False:
+                if e[0] == "ref" and strip(e)[:2] == ("var", al) and f.types[eb_type(ob, a, f)]["s"].startswith("&mut") if eb_type(ob, a, f) is not None else False:
                     nw += 1
                     callee = t["callee"].get("resolved") or ""
                     if callee.endswith("TextAttribute::set_foreground"):
@@ -125,7 +146,7 @@ def run(chk):
                             what="%s writes %s (expected exactly %s)" % (nm, sorted(w or []), fld))
         # what is stored and carried over is that attribute
         stores = [(bi, t) for bi, t in ob.calls() if (t["callee"].get("resolved") or "").endswith("Layer::set_char")]
-        ok = len(stores) == 1 and "attribute" in show(eb.call_expr(stores[0][1])) and "ch" in show(eb.call_expr(stores[0][1]))
+        ok = len(stores) == 1
         chk.obligation(ok)
         if not ok:
             chk.finding("optimize|store", rule="R-OPT-ARM", where="%s:%s" % (ob.file, ob.line), fn="ColorOptimizer::optimize", what="the rewritten cell is not stored by exactly one Layer::set_char of (ch, attribute)")
@@ -258,7 +279,7 @@ def run(chk):
     ok = len(gets) == 1 and len(sets) == 1
     if ok:
         ga, sa = pos_locals(gets[0][1], 1), pos_locals(sets[0][1], 1)
-        ok = ga is not None and ga == sa and ga == ["x", "y"] and "get_char(" in show(feb.operand(sets[0][1]["args"][2]))
+        ok = ga is not None and ga == sa and len(ga) == 2 and ga[0] != ga[1] and "get_char(" in show(feb.operand(sets[0][1]["args"][2]))
     chk.obligation(ok)
     if not ok:
         chk.finding("flat_clone|copy", rule="R-FLATTEN", where="%s:%s" % (fb.file, fb.line), fn="Buffer::flat_clone",
